@@ -5,6 +5,8 @@ import threading
 import vlib
 import c14 as common       # chunks(), callkey(): shared streaming helpers
 
+# bulk replays: no symbolizer process per sanitizer report (failing behaviours are re-run with it)
+FAST_ENV = {"ASAN_OPTIONS": vlib.ASAN_ENV + ":symbolize=0"}
 PID = "C10"
 MANIFEST = dict(
         spec="Config.tla (+MC_Config, Gen_Config, Trace_Config)",
@@ -146,7 +148,7 @@ def binding_a(ck, exes, gencfg, impl, nt, samples):
     failed = {}
     for ch in common.chunks(path, 20000):
         behs = vlib.parse_behaviours("".join(ch))
-        recs, _ = vlib.run_driver(exe, script(behs))
+        recs, _ = vlib.run_driver(exe, script(behs), env=FAST_ENV)
         for mm in vlib.compare(behs, recs, match):
             failed[common.callkey(behs[mm["b"]])] = behs[mm["b"]]
             nmm += 1
@@ -290,11 +292,11 @@ def long_values_work(exes, label):
     return len(recs) == 2 and (recs[1].get("obs") or {}).get("all") == [[120] * 300], beh
 
 
-def trace_signature(ev, label):
+def trace_signature(ev, label, call=None):
     if ev is None:
         return "trace:%s:short" % label
     if ev["a"] in ("Crash", "Hang", "Garbled", "Missing"):
-        return "trace:%s:%s" % (label, ev["a"].lower())
+        return "trace:%s:%s:%s:%s" % (label, call["a"] if call else "?", ev["a"].lower(), arg_class(call) if call else "-")
     return "trace:%s:%s:rejected:%s" % (label, ev["a"], arg_class(ev))
 
 
@@ -335,7 +337,7 @@ def binding_b(ck, exes, n, steps, nt):
             if not ok2 and matched2 == matched:
                 ev = events[matched] if matched < len(events) else None
                 beh = hists[ev["b"]][:ev["i"] + 1] if ev else None
-                ck.violation(trace_signature(ev, label),
+                ck.violation(trace_signature(ev, label, beh[-1] if beh else None),
                              {"binding": "B(trace validation)", "impl": impl, "trace_cfg": tcfg, "matched_prefix": matched,
                               "rejected_event": ev, "behaviour": beh, "tlc_tail": tres.out[-1500:]})
             else:
